@@ -528,6 +528,35 @@ def r_small_quantile(ctx, db, est, roles, grid):
                            "no intermediate of the returned expression exceeds f64::MAX when every observation is finite" if ov is None else
                            "the intermediate %s reaches about 1e%.1f when the observations are as large as f64::MAX: quantile() returns an infinity "
                            "although the exact result lies between the observations" % (show_val(ov[0])[:120], ov[1]))
+                if is_float(ret):
+                    # R-UNDERFLOW: "exactly the sample quantile" / "within [min, max]" leave no absolute slack, and every
+                    # finite observation (denormals too) is in the domain: at most one subnormal-rounding operation, in a
+                    # monotone position (root, increment of a datum) or under a clamp between two observations
+                    def _datum(x):
+                        return isinstance(x, tuple) and (x[0] == "atom" or (x[0] == "fn" and x[1] == "sorted"))
+                    core, clamp = ret, set()
+                    while isinstance(core, tuple) and core[0] == "fn" and core[1] in ("min", "max") and len(core) == 4 and (_datum(core[2]) != _datum(core[3])):
+                        clamp.add(core[1])
+                        core = core[3] if _datum(core[2]) else core[2]
+                    srcs = NR.underflow_sources(core, lambda a_: True)
+                    if clamp == {"min", "max"} or not srcs:
+                        oku, whyu = True, ("the value is clamped between two observations" if clamp == {"min", "max"} else "no operation of the returned expression can round a subnormal")
+                    elif len(srcs) == 1:
+                        r0 = core
+                        while isinstance(r0, tuple) and r0[0] == "neg":
+                            r0 = r0[1]
+                        oku = r0 == srcs[0] or (r0[0] in ("add", "sub") and any(o == srcs[0] for o in r0[1:]))
+                        whyu = "a single subnormal-rounding operation in a monotone position" if oku else None
+                    else:
+                        oku, whyu = False, None
+                    if oku or len(srcs) >= 2:
+                        ctx.ob("R-UNDERFLOW", "small-sample:subnormal-rounding", qp, fsite, oku,
+                               ("n=%d: %s" % (n, whyu)) if oku else
+                               "n=%d: the returned expression %s adds %d separately rounded products of an observation by a non-integer: for subnormal "
+                               "observations each is rounded to a whole subnormal step, so two observations of 5e-324 give 0.0 — below the minimum, "
+                               "and not the sample quantile" % (n, show_val(ret)[:90], len(srcs)), sample={"n": n, "sources": len(srcs)})
+                    else:
+                        ctx.ob("R-UNDERFLOW", "small-sample:subnormal-rounding", qp, fsite, False, "n=%d: undecided shape %s" % (n, show_val(ret)[:90]), inc=True)
                 ctx.ob("R-TAINT", "small-sample:sorted-only:n=%d" % n, qp, fsite, okt,
                        ("returned height %s reads the arrival-order store (%s) instead of the sorted copy [path: %s]" % (show_val(ret)[:80], sorted(raw), pcs))
                        if not okt else "returned height %s derives from the sorted copy only [path: %s]" % (show_val(ret)[:80], pcs),
